@@ -414,3 +414,39 @@ def history(table, **kw):
     if [tuple(r) for r in second] != want(b):
         return 'second-ledger-shows-rows-of-the-first'
     return 'ok'
+
+
+@cond('C11.history.periods', quick=60,
+      bounds='fixture ledger, one connection: the postings / entries table read plainly, then a statement with CLEAR / CLOSE / OPEN '
+             '(without the other clauses), then read plainly again: the plain reads list exactly the ledger\'s own postings / '
+             'directives both times',
+      symbolic='(none)', enumerated='clause, table', params={'k': int, 'ent': bool},
+      note='solver-enumerated and executed natively (the summarisation runs on the concrete fixture)')
+def history_periods(k, ent):
+    clause = pick(['CLEAR', 'CLOSE', 'OPEN ON 2019-01-10', 'CLOSE ON 2019-02-01 CLEAR'], k)
+    ent = bool(ent)
+
+    def run():
+        from beancount.core import data as bdata
+        entries, _, options = ledger.load()
+        conn = ledger.connect()
+        if ent:
+            plain = 'SELECT date, type FROM #entries'
+            want = [(e.date, type(e).__name__.lower()) for e in entries]
+        else:
+            plain = 'SELECT date, account, position FROM #postings'
+            want = [(e.date, p.account, position.Position(p.units, p.cost))
+                    for e in entries if isinstance(e, bdata.Transaction) for p in e.postings]
+        first = [tuple(r) for r in conn.execute(plain).fetchall()]
+        if first != want:
+            return 'plain-read'
+        conn.execute(f'SELECT account, sum(position) AS s FROM {clause} GROUP BY account').fetchall()
+        if ent:
+            import io
+            from beanquery import query_execute
+            query_execute.execute_print(conn.compile(conn.parse(f'PRINT FROM {clause}')), io.StringIO())
+        again = [tuple(r) for r in conn.execute(plain).fetchall()]
+        if again != want:
+            return 'plain-read-after-a-period-statement'
+        return 'ok'
+    return native(run)
